@@ -22,7 +22,7 @@ PROP = {'drive': ['Total'] + ['Total' + g for g in _GROUPS],
                        'C02_name_no_panic', 'C02_name_cost_partial', 'C02_name_cost_fails', 'C02_name_agrees',
                        'C02_cffindex_no_panic', 'C02_cffindex_cost', 'C02_cffindex_agrees',
                        'C02_cmap_no_panic', 'C02_cmap_cost_partial', 'C02_cmap_agrees', 'C02_lazy_safe_cmap_get',
-                       'C02_cmap0_no_panic', 'C02_lazy_safe_cmap0', 'C02_cmap6_no_panic', 'C02_cmap6_cost', 'C02_cmap06_agree',
+                       'C02_cmap0_no_panic', 'C02_cmap0_mac_no_panic', 'C02_cmap0_mac_cost', 'C02_cmap0_mac_agrees', 'C02_lazy_safe_cmap0', 'C02_cmap6_no_panic', 'C02_cmap6_cost', 'C02_cmap06_agree',
                        'C02_coverage_no_panic', 'C02_coverage_cost', 'C02_classdef_no_panic', 'C02_classdef_cost',
                        'C02_classdef_unrepaired_cost_fails', 'C02_classdef_unrepaired_cost', 'C02_otl_agree', 'C02_gdef_concrete_no_panic',
                        'C02_gdef_unrepaired_alias', 'C02_gdef_alias_cached',
